@@ -127,6 +127,8 @@ def c14(res, tier, seed):
         f = simple(C14_PLAIN, C14_TEXT, *C14_ARGS)
     r = f(res, tier, seed)
     if tier == "quick":
+        # the list types go through nom_noalloc::many_m_n in the no-allocator build: run them there too
+        run_kani_jobs(res, K("c14_t07", ("none",), timeout=900) + K("c14_t13", ("none",), timeout=900) + K("c14_t20", ("none",), timeout=900) + K("c14_t15", ("none",), timeout=900))
         res.assumptions.append("quick tier: the variable-length types (5, 6, 7, 8, 12-17, 20, 24) and the short fixed ones (10, 27); the 168..312-bit "
                                "fixed layouts 1-4, 9, 11, 18, 19, 21 (short payload => error) run in the thorough tier (3-5 min each)")
     return r
@@ -447,8 +449,14 @@ def c02(res, tier, seed):
     msq, ql, rels = m_setup(res, ("std", "none") if tier == "quick" else ALL, seed)
     for c, rel in rels.items():
         msq.q_checksum_gate(res, rel, ql)
-    res.assumptions += ["lines of at most N bytes (see bounds); the S-layer queries cover any parser state"]
-    return mt_meta(tier)
+    # Kani leaf on the real check_checksum (through the cfg-guarded hook): the fold covers every byte of ranges far beyond N
+    run_kani_jobs(res, K("c02_fold_n400", ("std",), timeout=900) + K("c02_fold_n96", ("none",), timeout=900) if tier == "quick"
+                  else K("c02_fold_n96", ALL, timeout=900) + K("c02_fold_n400", ALL, timeout=2700))
+    res.assumptions += ["text layer: lines of at most N bytes (see bounds); the S-layer queries cover any parser state",
+                        "XOR fold + comparison (Kani, hook AisParser::verif_check_checksum): checksummed ranges of up to %d bytes, all contents" % 400]
+    meta = mt_meta(tier)
+    meta["trusted"] = KANI_TRUSTED + meta["trusted"]
+    return meta
 
 
 def c08(res, tier, seed):
